@@ -821,6 +821,34 @@ func condSaysNil(cond ssa.Value, val bool, v ssa.Value) (known, isNil bool) {
 	return false, false
 }
 
+// CondKey renders a branch condition structurally (operator + access paths of
+// its operands) so that two evaluations of the same source condition compare
+// equal. "" when the condition has no stable rendering.
+func CondKey(cond ssa.Value) string {
+	switch c := cond.(type) {
+	case *ssa.BinOp:
+		x, y := AccessPath(c.X), AccessPath(c.Y)
+		if strings.HasPrefix(x, "?") || strings.HasPrefix(y, "?") {
+			return ""
+		}
+		return x + " " + c.Op.String() + " " + y
+	case *ssa.UnOp:
+		if c.Op == token.NOT {
+			if k := CondKey(c.X); k != "" {
+				return "!(" + k + ")"
+			}
+			return ""
+		}
+		if c.Op == token.MUL {
+			p := AccessPath(c)
+			if !strings.HasPrefix(p, "?") {
+				return p
+			}
+		}
+	}
+	return ""
+}
+
 // BoolCallFact reports whether a call satisfying pred is known to have
 // returned a given boolean at block b. known=false when no such fact.
 func BoolCallFact(b *ssa.BasicBlock, pred func(CallSite) bool) (known, val bool, call CallSite) {
